@@ -46,13 +46,21 @@ CLAIMED = {
          "Link part: real OutstationTask and real MasterTask over a pipe; role x self-address feature x {not reset, reset} x all 256 control bytes x 7 destination classes (own, other, self 0xFFFC, three broadcast addresses, reserved) x 6 source classes x {no payload, one user-data segment}, each followed by a link-status probe; all frame sequences of length 3 (quick) / 4 (thorough) over an 11-14 letter alphabet (RESET_LINK_STATES, confirmed data with either FCB, unconfirmed data, link status, TEST, ACK, wrong destination / source, broadcasts). Reference: act iff opposite direction, endpoint source, destination own / self(feature, outstation) / broadcast(outstation, user data); exact reply (ACK, LINK_STATUS to the source from the own address) or none; confirmed data delivered once per FCB toggle after a reset; nothing ever transmitted for a broadcast. Application part: any-master x broadcast feature x {idle, solicited confirm wait, unsolicited confirm wait} x 11 fragments (valid, unknown function, FIR clear, UNS on request, truncated, 1 byte, CONFIRM ...) x {configured master, foreign master, three broadcast addresses}: nothing transmitted for a broadcast, nothing transmitted or executed for a foreign master unless any-master.",
          "Trusted: engine link codec. Delivery is observed at application level. Invalid FCV encodings and TEST_LINK_STATES are 'either'.",
          "DESIGN.md §5 C07", True),
+ "C06": ("model_checking",
+         "exhaustive enumeration of frames, chunkings, bit-error patterns and noise strings against the real link Reader (parser state carried across reads, buffer shifting), oracle = bit-serial CRC and a specification framer with full rescan",
+         "Round trip (library formatters vs reference builder byte for byte; parsed back under whole / every 2-way split / every 3-way split for short frames / bytewise, both error modes), buffer wrap-around for every filler length and several read sizes and fragment sizes, every 1- and 2-bit error (3-bit for frames <= 44 bytes, thorough) and every burst of 2..=16 bits in frames of 10/27/28/45/292 bytes followed by a clean frame, discard-mode resynchronisation after every noise string of <= 2 (3) tokens under every split, truncated frame + frames (chunking independence), datagram mode at every split point.",
+         "Trusted: the engine's CRC and framer. Quick tier restricts control bytes (16), address pairs (4) and payload lengths (30); thorough covers all 256 control bytes and all lengths 0..=250.",
+         "DESIGN.md §5 C06", True),
+ "C08": ("model_checking",
+         "exhaustive enumeration of fragment lengths x starting sequence numbers through the real transport Writer and Reader, and of mutated segment streams against a reference reassembler",
+         "Writer output for every length (boundary set quick, 1..=2048 thorough) from starting sequences incl. the mod-64 wrap compared byte for byte with the reference segmenter and delivered through the real Reader (link Layer + Assembler) under several chunkings; all applications of <= 2 (3) mutation operators (drop, duplicate, swap, re-address, clear/set FIR, interleave a second sender, overflow, broadcast segment, skipped sequence number) to the segment streams of fragments of 1/249/250/498/747/2048 bytes into receive buffers 249/250/498/2048, each followed by a clean fragment: deliveries equal the reference reassembler's exactly, fragment ids consecutive.",
+         "Trusted: engine segmenter / reassembler written from the statement. Operators are applied at five structural positions.",
+         "DESIGN.md §5 C08", True),
 }
 
 NOT_YET = {
  "C01": "designed in DESIGN §5 C01 (hostile-input sweeps + session states); check not built yet",
  "C02": "designed in DESIGN §5 C02 (paired master/outstation simulation); check not built yet",
- "C06": "designed in DESIGN §5 C06; check not built yet",
- "C08": "designed in DESIGN §5 C08; check not built yet",
  "C09": "designed in DESIGN §5 C09; check not built yet",
  "C10": "designed in DESIGN §5 C10; check not built yet",
  "C15": "designed in DESIGN §5 C15; check not built yet",
